@@ -165,13 +165,16 @@ PROPS = {
                         'the xor/popcount distance kernels are proved for 8 / 16 bytes (Kani, symbolic contents), not for every length (iterator adapters zip / map / sum)'],
     },
     'C16': {
+        # size checks of the two vector codecs for EVERY byte length (the Kani harnesses cover <= 12 / <= 24 bytes)
+        'verus': {'bq_pack': ['F32Codec::from_bytes', 'F32Codec::len', 'BinaryQuantized::from_bytes', 'BinaryQuantized::len']},
         'kani': {'quick': [('key_layout', KEY_LAYOUT_ALL), ('node_id_codec', NODE_ID), ('version_codec', ['version_encode_is_reference_layout', 'version_decode_reads_reference_layout']),
                            ('node_codec', ['leaf_encode_is_reference_layout_len2', 'split_encode_is_reference_layout_len1', 'node_tags_are_reference_values']),
                            ('f32_codec', ['f32_from_slice_roundtrip_is_bit_exact', 'f32_from_vec_is_bit_exact', 'f32_from_bytes_size_check']),
                            ('distance_side', ['metric_names_are_reference_strings']),
                            ('header_layout', ['dot_product_header_is_extra_dim_then_norm', 'single_field_headers_are_four_bytes']),
                            ('metadata_codec', ['metadata_encode_is_reference_layout'])]},
-        'trusted': ['node value layouts are proved for concrete vector lengths (leaf: 2 floats, split normal: 1 float) with symbolic contents'],
+        'trusted': ['node value layouts are proved for concrete vector lengths (leaf: 2 floats, split normal: 1 float) with symbolic contents',
+                    'unit bq_pack: size_of::<f32>() == 4 and the transmute of a byte slice to the transparent UnalignedVector wrapper are stand-ins; with them from_bytes of both vector codecs accepts exactly the multiples of 4 / 8 bytes and len is bytes / 4 resp. 64 * (bytes / 8), for every length'],
         'not_decided': ['golden fixtures written by a reference binary (none exists in the sandbox)', 'the roaring serialisation format (external crate; stubbed in the MetadataCodec harness) and MetadataCodec::bytes_decode (CBMC does not finish on CStr / UTF-8 validation; tied to the proved encoder layout by the crate\'s round-trip test)',
                         'NodeCodec::bytes_decode of leaf / split values (CBMC does not finish on the boxed-error path); its parts NodeId::from_bytes, the tags and the vector size checks are proved'],
     },
